@@ -1045,5 +1045,30 @@ pub fn probe_store(sim: &Arc<Sim>, env: &Env, r1: &Contents, label: &str) -> Res
         checks::check_durable_image(env, &model, true).map_err(|f| (f.rule.to_string(), format!("[{label}] after probe flush: {}", f.detail)))?;
         checks::check_partition(env).map_err(|f| (f.rule.to_string(), format!("[{label}] after probe flush: {}", f.detail)))?;
     }
+    // C12 across recovery: an automatically timestamped write on a recovered key is accepted
+    // and gets a version above the recovered one
+    for (k, g) in r1.iter().take(3) {
+        if g.ts == u64::MAX {
+            continue;
+        }
+        match store.insert(k, b"auto-after-recovery") {
+            Ok(_) => {
+                let ts = store.verif_key(k).map(|v| v.timestamp).unwrap_or(0);
+                if ts <= g.ts {
+                    return Err((
+                        "auto-ts-not-above-recovered".into(),
+                        format!("[{label}] key {}: recovered with timestamp {} but the next automatic write got {ts}", show(k), g.ts),
+                    ));
+                }
+            }
+            Err(feoxdb::FeoxError::OlderTimestamp) => {
+                return Err((
+                    "auto-write-rejected-after-recovery".into(),
+                    format!("[{label}] key {}: an automatically timestamped write after recovery was rejected as older (recovered timestamp {})", show(k), g.ts),
+                ))
+            }
+            Err(_) => {}
+        }
+    }
     Ok(())
 }
